@@ -14,12 +14,14 @@ fn nest_doc(rng: &mut Rng, quick: bool) -> (DocSpec, &'static str) {
     // (open, close, max depth, label)
     let kinds: &[(&str, &str, u32, &'static str)] = &[
         ("<span>", "</span>", 100_000, "span"),
+        ("<span>", "</span>", 100_000, "span"),
         ("<em>", "</em>", 100_000, "em"),
         ("<code>", "</code>", 100_000, "code"),
         ("<sup>", "</sup>", 100_000, "sup"),
         ("<a href=x>", "</a>", 20_000, "a"),
         ("<font color=red>", "</font>", 20_000, "font"),
         ("<x-y>", "</x-y>", 100_000, "unknown"),
+        ("<ins>", "</ins>", 100_000, "ins"),
         ("<table><tr><td>", "</td></tr></table>", 30_000, "table"),
         ("<div>", "</div>", 3_000, "div"),
         ("<ul><li>", "</li></ul>", 3_000, "ul"),
@@ -29,22 +31,25 @@ fn nest_doc(rng: &mut Rng, quick: bool) -> (DocSpec, &'static str) {
         ("<p><b>", "</b></p>", 3_000, "p-b"),
         ("<h3>", "</h3>", 3_000, "h3"),
         ("<pre>", "</pre>", 3_000, "pre"),
-        ("<span class=c0 id=i0>", "</span>", 50_000, "span-attrs"),
-        ("<s>", "</s>", 20_000, "s"),
-        ("<strong>", "</strong>", 20_000, "strong"),
+        ("<span class=c0 id=i0>", "</span>", 100_000, "span-attrs"),
+        ("<s>", "</s>", 100_000, "s"),
+        ("<strong>", "</strong>", 100_000, "strong"),
     ];
     let (open, close, maxd, label) = rng.pick(kinds);
     let depth_choices: &[u32] = if quick {
-        &[50, 200, 1_000, 3_000, 10_000, 30_000, 100_000]
+        &[200, 3_000, 30_000, 100_000, 100_000]
     } else {
-        &[10, 100, 500, 1_000, 3_000, 10_000, 20_000, 50_000, 100_000]
+        &[10, 100, 1_000, 3_000, 10_000, 20_000, 50_000, 100_000, 100_000]
     };
     let depth = (rng.pick(depth_choices)).min(maxd);
     let inner = rng.pick(&["x", "", "宽", "hello world", "<br>", "<img src=a alt=b>", "\t", "a<p>b"]);
+    // the chain hangs under one of these (each is a place where the library
+    // treats the children specially: filtering, discarding, wrapping, prefixing)
     let prefix = rng.pick(&[
-        "", "", "", "<p>宽</p>", "<ol><li>a</li>", "<table><caption>", "<ol>", "<dl>", "<a href=u>",
-        "<table><tr><td>x</td></tr>", "<p>first</p>", "<ul><li>", "<style>span span span{color:red}</style>",
-        "<pre>", "<h1>",
+        "", "", "<p>宽</p>", "<p>宽</p><p>y</p>", "<ol><li>a</li>", "<table><caption>", "<ol>", "<dl>", "<a href=u>",
+        "<a href=u>", "<a name=n>", "<table><tr><td>x</td></tr>", "<p>first</p>", "<ul><li>",
+        "<style>span span span{color:red;}</style>", "<pre>", "<h1>", "<blockquote>", "<dl><dt>", "<sup>",
+        "<table><tr><td>", "<div id=i1>", "<ol start=7><li>", "<s>", "<img src=a alt=b>",
     ]);
     let suffix = rng.pick(&["", "", "tail", "<p>after</p>", "</table>", "宽"]);
     let closes = match rng.below(4) {
@@ -71,7 +76,7 @@ pub fn generate(run_seed: u64, quick: bool) -> Scenario {
     let mut fr = Rng::stream(run_seed, 2);
     let mut er = Rng::stream(run_seed, 4);
 
-    let class = wl.weighted(&[58, 20, 10, 6, 6]);
+    let class = wl.weighted(&[56, 20, 10, 8, 6]);
     let class_name = ["grammar", "corrupt", "css", "deep", "extreme"][class];
 
     // --- width (drawn first: it bounds the document size, see below)
@@ -362,7 +367,15 @@ pub fn generate(run_seed: u64, quick: bool) -> Scenario {
             }
         }
     }
-    let stack_kib = er.pick(&[2048u32, 8192]);
+    // Stack size is part of the environment: 8 MiB (main thread on Linux),
+    // 2 MiB (std::thread default), 1 MiB (main thread on Windows) and, for
+    // the deep class only, 256 KiB (small worker-thread stacks; musl's default
+    // is 128 KiB).  The unchanged library renders 10^5-deep nests on 128 KiB.
+    let stack_kib = if class == 3 {
+        er.pick(&[256u32, 1024, 2048, 2048, 8192])
+    } else {
+        er.pick(&[2048u32, 8192])
+    };
     Scenario {
         property: "C01".into(),
         class: class_name.into(),
